@@ -2004,6 +2004,7 @@ class Builder:
     def sdk_epr_rsp_create(
         self,
         params: EntRequestParams,
+        reset_results_array: bool = False,
     ) -> List[EprMeasureResult]:
         """Build commands for a 'create remote state preparation' EPR operation
         and return the result futures."""
@@ -2022,6 +2023,9 @@ class Builder:
 
         wait_all = params.post_routine is None
 
+        if reset_results_array:
+            self._build_cmds_undefine_array(ent_results_array)
+
         # Construct and add the NetQASM instructions
         self._build_cmds_epr_create_rsp(
             create_args_array, ent_results_array, wait_all, params
@@ -2034,6 +2038,7 @@ class Builder:
     def sdk_epr_rsp_recv(
         self,
         params: EntRequestParams,
+        reset_results_array: bool = False,
     ) -> Tuple[List[Qubit], List[EprKeepResult]]:
         """Build commands for a 'receive remote state preparation' EPR operation
         and return the created qubits and result futures."""
@@ -2060,6 +2065,9 @@ class Builder:
         qubit_ids_array = self.alloc_array(init_values=virtual_qubit_ids)  # type: ignore
 
         wait_all = params.post_routine is None
+
+        if reset_results_array:
+            self._build_cmds_undefine_array(ent_results_array)
 
         # Construct and add the NetQASM instructions
         self._build_cmds_epr_recv_rsp(
@@ -2176,7 +2184,11 @@ class Builder:
             # If a min-fidelity constraint is specified, wrap the operation in a loop
             assert params.max_tries is not None
             with self.sdk_new_loop_until_context(params.max_tries) as loop:
-                results = self.sdk_epr_rsp_create(params=params)
+                # Each attempt must wait for its own results: undefine the results
+                # array first (it still holds the values of the previous attempt).
+                results = self.sdk_epr_rsp_create(
+                    params=params, reset_results_array=True
+                )
                 duration = results[-1].generation_duration
                 max_time = NVEprCompiler.get_max_time_for_fidelity(
                     params.min_fidelity_all_at_end
@@ -2198,12 +2210,23 @@ class Builder:
             # If a min-fidelity constraint is specified, wrap the operation in a loop
             assert params.max_tries is not None
             with self.sdk_new_loop_until_context(params.max_tries) as loop:
-                qubits, results = self.sdk_epr_rsp_recv(params=params)
+                # Each attempt must wait for its own results (see sdk_create_epr_rsp).
+                qubits, results = self.sdk_epr_rsp_recv(
+                    params=params, reset_results_array=True
+                )
                 duration = results[-1].generation_duration
                 max_time = NVEprCompiler.get_max_time_for_fidelity(
                     params.min_fidelity_all_at_end
                 )
                 loop.set_exit_condition(ValueAtMostConstraint(duration, max_time))
+
+                def cleanup(_: BaseNetQASMConnection):
+                    # The attempt is discarded and retried: release its qubits so that
+                    # the next attempt's pairs can be received into the same IDs.
+                    for q in qubits:
+                        self._build_cmds_qfree(qubit_id=q.qubit_id)
+
+                loop.set_cleanup_code(cleanup)
             return qubits, results
         else:
             # otherwise, just do the operation once
